@@ -543,7 +543,14 @@ type Contract struct {
 	Hints     []*Clause // proved at exit before the postconditions, then assumed
 	Applies   []*Clause // lemma instances over the entry state, assumed at entry (justified by the lemma's own proof)
 	FreshRes  bool
+	Cuts      []*Cut // assertions proved (then assumed) immediately before a call to a named callee
 	Fresh     []QVar // skolem witnesses: fresh constants per call (callee side: ghost results chosen existentially are not supported; only for extern/trusted)
+}
+
+// Cut is an intermediate assertion attached to a call site: 'cut before <callee-name>: <label>: expr'.
+type Cut struct {
+	Callee string
+	C      *Clause
 }
 
 type GhostStmt struct {
@@ -608,7 +615,7 @@ var clauseKeywords = map[string]bool{
 	"func": true, "extern": true, "requires": true, "ensures": true, "modifies": true, "loop": true,
 	"invariant": true, "decreases": true, "pred": true, "props": true, "arith": true, "pure": true,
 	"trusted": true, "panics_if": true, "opt": true, "ghost": true, "lemma": true, "nosafety": true,
-	"results": true, "assume": true, "end": true, "uses": true, "hint": true, "apply": true, "ufunc": true, "fresh": true, "define": true, "bounded": true,
+	"results": true, "assume": true, "end": true, "uses": true, "hint": true, "apply": true, "ufunc": true, "fresh": true, "define": true, "bounded": true, "defaxiom": true, "cut": true,
 }
 
 // ParseSpecText parses the //@ lines of one file into sf.
@@ -810,7 +817,21 @@ func (sf *SpecFile) ParseSpecText(file, text string) error {
 			if err != nil {
 				return fmt.Errorf("%s:%d: %v", file, rc.line, err)
 			}
-			sf.Lemmas = append(sf.Lemmas, &Lemma{Name: uf.Name, Src: src, Body: e, Assumed: true, Definition: true})
+			sf.Lemmas = append(sf.Lemmas, &Lemma{Name: uf.Name + "_def", Src: src, Body: e, Assumed: true, Definition: true})
+		case "defaxiom":
+			// defaxiom name: forall ... :: body   -- a defining equation of an uninterpreted spec function (conservative
+			// by construction: recursive definitions on a well-founded argument); used through apply / uses like a lemma
+			k := strings.Index(rc.rest, ":")
+			if k < 0 {
+				return fmt.Errorf("%s:%d: defaxiom needs name:", file, rc.line)
+			}
+			lm := &Lemma{Name: strings.TrimSpace(rc.rest[:k]), Src: strings.TrimSpace(rc.rest[k+1:]), Assumed: true, Definition: true}
+			e, err := ParseExpr(lm.Src)
+			if err != nil {
+				return fmt.Errorf("%s:%d: %v", file, rc.line, err)
+			}
+			lm.Body = e
+			sf.Lemmas = append(sf.Lemmas, lm)
 		case "lemma":
 			// lemma name [assumed] : forall ... :: body
 			k := strings.Index(rc.rest, ":")
@@ -868,6 +889,23 @@ func (sf *SpecFile) ParseSpecText(file, text string) error {
 				return fmt.Errorf("%s:%d: clause %q outside a func block", file, rc.line, rc.kw)
 			}
 			switch rc.kw {
+			case "cut":
+				// cut before <callee>: [label:] expr
+				rest := strings.TrimSpace(rc.rest)
+				if !strings.HasPrefix(rest, "before ") {
+					return fmt.Errorf("%s:%d: cut before <callee>: expr", file, rc.line)
+				}
+				rest = strings.TrimSpace(strings.TrimPrefix(rest, "before "))
+				k := strings.Index(rest, ":")
+				if k < 0 {
+					return fmt.Errorf("%s:%d: cut before <callee>: expr", file, rc.line)
+				}
+				callee := strings.TrimSpace(rest[:k])
+				c, err := mkClause(rawClause{"cut", strings.TrimSpace(rest[k+1:]), rc.line})
+				if err != nil {
+					return err
+				}
+				cur.Cuts = append(cur.Cuts, &Cut{Callee: callee, C: c})
 			case "fresh":
 				f := strings.Fields(rc.rest)
 				if len(f) != 2 {
